@@ -125,6 +125,7 @@ func (ts *TimedSched) sched() {
 				drained = false
 			}
 		case now := <-timer.C:
+			now = verifTimerNow(now)
 			drained = true
 			for tasks.Len() > 0 {
 				if now.After(tasks[0].ts) {
